@@ -1077,12 +1077,31 @@ def _native_setget_sweep(tier="quick", seed=0):
         return None
 
     def scalars(prs):
-        out = []
+        """{(part name, path of the wrapped element, proxy class, property): reading} over the object graph: objects are matched between
+        the in-memory and the re-opened deck by WHERE their element sits, not by the order in which a traversal meets them"""
+        out = {}
+        roots = {}
+        for part in prs.part.package.iter_parts():
+            r_ = getattr(part, "_element", None)
+            if r_ is not None:
+                roots[id(r_)] = (str(part.partname), r_)
+
+        def where(o):
+            for el in list(vars(o).values()) if hasattr(o, "__dict__") else []:
+                if hasattr(el, "tag") and hasattr(el, "getroottree"):
+                    root = el.getroottree().getroot()
+                    hit = roots.get(id(root))
+                    if hit is None or hit[1] is not root:
+                        return None  # the proxy wraps an element that is no longer (or not yet) part of a saved tree
+                    return hit[0], el.getroottree().getpath(el)
+            return None
 
         def visit(o, n):
             v = getattr(o, n)
             if v is None or isinstance(v, (bool, int, float, str)) or type(v).__module__.startswith("pptx.enum") or type(v).__name__ == "RGBColor":
-                out.append((type(o).__name__, n, repr(v)))
+                w = where(o)
+                if w is not None:
+                    out[w + (type(o).__name__, n)] = repr(v)
             return v
 
         _walk(prs, visit, skip={("Slide", "notes_slide"), ("Presentation", "notes_master"), ("_Background", "fill"), ("_BaseShapes", "turbo_add_enabled")}, budget=2500)
@@ -1140,10 +1159,15 @@ def _native_setget_sweep(tier="quick", seed=0):
             buf = io.BytesIO()
             prs.save(buf)
             b = scalars(Presentation(io.BytesIO(buf.getvalue())))
-            if a != b:
-                diff = [(x, y) for x, y in zip(a, b) if x != y][:1] or [("in memory %d readings" % len(a), "re-opened %d readings" % len(b))]
-                bad2 = "%s: after the sweep, in memory %s.%s reads %s but the saved and re-opened deck gives %s.%s = %s" % (
-                    (label,) + tuple(diff[0][0]) + tuple(diff[0][1])) if len(diff[0][0]) == 3 else "%s: %s vs %s" % (label, diff[0][0], diff[0][1])
+            # FillFormat caches the kind of fill it found when it was made: two proxies of one element (a documented caveat of the
+            # library, like several Slide proxies of one slide) can disagree in memory, so its readings are not compared here
+            common = [k_ for k_ in a if k_ in b and k_[2] != "FillFormat"]
+            diff = [k_ for k_ in common if a[k_] != b[k_]]
+            if diff:
+                k_ = diff[0]
+                bad2 = "%s: after the sweep, %s.%s of the element at %s in %s reads %s in memory but %s in the saved and re-opened deck" % (label, k_[2], k_[3], k_[1], k_[0], a[k_], b[k_])
+            elif len(common) < 0.8 * max(1, len(a)):
+                bad2 = "%s: only %d of %d in-memory readings have a counterpart after save and re-open" % (label, len(common), len(a))
         except Exception as e:
             bad2 = "%s: save / re-open after the sweep raised %r" % (label, e)
         rec("C09.native.sweep_state_survives_reopen[%s]" % label, bad2)
